@@ -102,6 +102,12 @@ func setupC17(env *engine.Env) error {
 		over["release-build"], _ = os.ReadFile(relOut)
 	}
 	os.Remove(relBin)
+	// a device that takes no byte as -o: the command must not claim to have written the file
+	if _, err := os.Stat("/dev/full"); err == nil {
+		if b, err := exec.Command(bin, "jsonschema", "-o", "/dev/full").CombinedOutput(); err == nil {
+			over["write-failure-unreported"] = []byte(fmt.Sprintf("`nfpm jsonschema -o /dev/full` exits 0 although nothing can be written there: %s", b))
+		}
+	}
 	so, err := exec.Command(bin, "jsonschema").Output()
 	if err != nil {
 		return fmt.Errorf("nfpm jsonschema: %v", err)
